@@ -412,3 +412,42 @@ def torch_funcs():
                      "double", "float", "type"):
         t["." + passthru] = lambda a, n: a[0]
     return t
+
+
+def identically(expr, value=0, n_points: int = 8, prec: int = 60, seed: int = 12345) -> bool:
+    """Decide expr == value as an identity in its free symbols.  First by symbolic normalisation; if sympy cannot
+    normalise radicals (e.g. (8a+4b)**(3/2) vs 8*(2a+b)**(3/2)) fall back to an exact-arithmetic evaluation at
+    random positive rational points with `prec` digits (an algebraic identity that holds at 8 random points to
+    1e-40 is an identity for all practical purposes; a genuine difference is non-zero almost everywhere)."""
+    import random
+
+    import sympy as sp
+    d = sp.simplify(expr - value)
+    if d == 0:
+        return True
+    try:
+        d2 = sp.simplify(sp.powdenest(sp.factor_terms(sp.together(d)), force=True))
+        if d2 == 0:
+            return True
+    except Exception:
+        pass
+    syms = sorted(d.free_symbols, key=lambda x: x.name)
+    if not syms:
+        return abs(sp.N(d, prec)) < sp.Float(10) ** (-(prec - 20))
+    rnd = random.Random(seed)
+    good = 0
+    for _ in range(n_points * 3):
+        pt = {x: sp.Rational(rnd.randint(11, 997), rnd.randint(101, 499)) for x in syms}
+        try:
+            v = sp.N(d.subs(pt), prec)
+            scale = sp.N(sp.Abs(expr.subs(pt)) + sp.Abs(sp.sympify(value).subs(pt) if hasattr(sp.sympify(value), "subs") else value) + 1, prec)
+        except Exception:
+            continue
+        if v.has(sp.nan, sp.zoo, sp.oo) or not v.is_number:
+            continue
+        if abs(v) / scale > sp.Float(10) ** (-(prec - 25)):
+            return False
+        good += 1
+        if good >= n_points:
+            return True
+    return False
